@@ -593,12 +593,37 @@ func (s *S3Proxy) UploadPart(ctx context.Context, input *s3.UploadPartInput) (*s
 		input.SSECustomerKeyMD5 = nil
 	}
 
+	var bodyErr *bodyErrReader
+	if input.Body != nil {
+		bodyErr = &bodyErrReader{r: input.Body}
+		input.Body = bodyErr
+	}
+
 	// streaming backend is not seekable,
 	// use unsigned payload for streaming ops
 	output, err := s.client.UploadPart(ctx, input, s3.WithAPIOptions(
 		v4.SwapComputePayloadSHA256ForUnsignedPayloadMiddleware,
 	))
+	if err != nil && bodyErr != nil && bodyErr.err != nil {
+		return output, bodyErr.err
+	}
 	return output, handleError(err)
+}
+
+// bodyErrReader remembers the error the request body itself raised (a
+// wrong signature, payload hash or checksum is found when the body is read
+// to its end): the SDK replaces it with its own transport error.
+type bodyErrReader struct {
+	r   io.Reader
+	err error
+}
+
+func (b *bodyErrReader) Read(p []byte) (int, error) {
+	n, err := b.r.Read(p)
+	if err != nil && err != io.EOF && b.err == nil {
+		b.err = err
+	}
+	return n, err
 }
 
 func (s *S3Proxy) UploadPartCopy(ctx context.Context, input *s3.UploadPartCopyInput) (s3response.CopyPartResult, error) {
@@ -754,8 +779,20 @@ func (s *S3Proxy) PutObject(ctx context.Context, input s3response.PutObjectInput
 
 	// an empty object has no body to stream: without a body the client
 	// declares the length 0, which an unseekable empty stream would not
-	body := input.Body
+	// (the request body is still read to its end: that is where the
+	// gateway verifies the signature and the payload hash)
+	var body io.Reader
+	var bodyErr *bodyErrReader
+	if input.Body != nil {
+		bodyErr = &bodyErrReader{r: input.Body}
+		body = bodyErr
+	}
 	if input.ContentLength != nil && *input.ContentLength == 0 {
+		if body != nil {
+			if _, err := io.Copy(io.Discard, body); err != nil {
+				return s3response.PutObjectOutput{}, err
+			}
+		}
 		body = nil
 	}
 
@@ -801,6 +838,9 @@ func (s *S3Proxy) PutObject(ctx context.Context, input s3response.PutObjectInput
 		v4.SwapComputePayloadSHA256ForUnsignedPayloadMiddleware,
 	))
 	if err != nil {
+		if bodyErr != nil && bodyErr.err != nil {
+			return s3response.PutObjectOutput{}, bodyErr.err
+		}
 		return s3response.PutObjectOutput{}, handleError(err)
 	}
 
